@@ -140,6 +140,7 @@ def gen_call_config(rng, tier):
         "max_alts": rng.choice([1, 2, 3, 4, 5]),
         "use_afp": rng.random() < 0.8,
         "zero_rate": rng.choice([0.0, 0.2, 0.4, 0.6]),
+        "tiny_rate": rng.choice([0.0, 0.0, 0.2, 0.4]),
         "refmasked_rate": rng.choice([0.0, 0.0, 0.3, 1.0]),
         "mcmc_steps": rng.choice([12, 20, 40]),
         "mcmc_burn": rng.choice([0, 3, 6]),
@@ -210,6 +211,10 @@ def write_haplotype_vcf(cfg, ds, path):
                 raw[i] = 0
         tot = sum(raw)
         afp = [round(x / tot, 3) if tot else 0.0 for x in raw]
+        for i in range(n):
+            # a tiny but positive prior frequency is not zero: the allele stays in the model
+            if afp[i] > 0 and rng.random() < cfg.get("tiny_rate", 0.0):
+                afp[i] = rng.choice([5e-09, 1e-09, 2e-07])
         masked = rng.random() < cfg["refmasked_rate"]
         info = []
         if masked:
@@ -362,7 +367,8 @@ def run_call_cli(ctx):
             seams.set(exact_mod, "genotype_posteriors", w_gp)
             seams.set(exact_mod, "posterior_mode", w_pm)
             out_call = run_program("call", argv + ["--mcmc-steps", cfg["mcmc_steps"], "--mcmc-burn", cfg["mcmc_burn"],
-                                                   "--mcmc-chains", cfg["mcmc_chains"], "--mcmc-seed", cfg["mcmc_seed"]])
+                                                   "--mcmc-chains", cfg["mcmc_chains"], "--mcmc-seed", cfg["mcmc_seed"]]
+                                   + (["--report", "GP"] if cfg["report_gp"] else []))
             out_exact = run_program("call-exact", argv + (["--report", "GP"] if cfg["report_gp"] else []))
         ctx.log.add("cli", "call", len(call_recs), len(exact_recs))
 
@@ -424,6 +430,8 @@ def run_call_cli(ctx):
                 done += 1
                 if any(x == 0 for x in (l["afp"] if cfg["use_afp"] else [])):
                     ctx.counters.inc("cli_zero_frequency_allele")
+                if any(0 < x < 1e-6 for x in (l["afp"] if cfg["use_afp"] else [])):
+                    ctx.counters.inc("cli_tiny_frequency_allele")
                 if l["masked"]:
                     ctx.counters.inc("cli_reference_masked")
                 if rec.get("probabilities") is not None:
@@ -482,6 +490,30 @@ def run_call_cli(ctx):
                                 if tuple(sorted(amap[int(a)] for a in g)) == key:
                                     n += 1
                         want_p = n / tot
+                        gp = vr["samples"][s].get("GP")
+                        if gp not in (None, ".", ""):
+                            # the G-ordered array over the OUTPUT record's alleles is the empirical distribution of the retained trace
+                            vals = [float(x) if x != "." else float("nan") for x in gp.split(",")]
+                            gens = ref.all_genotypes(len(out_seqs), rec["ploidy"])
+                            gens = [gens[i] for i in ref.vcf_order(gens)]
+                            if len(vals) != len(gens):
+                                raise Violation("cli_labels", "mchap call prints %d GP values for %d alleles at ploidy %d (%s / %s)" % (len(vals), len(out_seqs), rec["ploidy"], vr["id"], s), step=0)
+                            try:
+                                omap = [out_seqs.index(q) for q in l["seqs"]]
+                            except ValueError:
+                                omap = None
+                            if omap is not None:
+                                emp = {}
+                                for chain in tr:
+                                    for g in chain:
+                                        k2 = tuple(sorted(omap[amap[int(a)]] for a in g))
+                                        emp[k2] = emp.get(k2, 0) + 1
+                                for g, v in zip(gens, vals):
+                                    w = emp.get(tuple(g), 0) / tot
+                                    if not (abs(v - w) <= 0.0006):
+                                        raise Violation("cli_labels", "mchap call prints GP=%r for genotype %s of %s / %s; it holds %.6f of the retained trace"
+                                                        % (v, "/".join(str(a) for a in g), vr["id"], s, w), step=0, detail={"masked": l["masked"], "afp": l["afp"]})
+                                ctx.counters.inc("cli_gp_arrays_compared")
                     if abs(gpm - want_p) > 0.0006:
                         raise Violation("cli_labels", "mchap %s reports GT %s with GPM %r for %s / %s; the genotype these alleles spell has probability %.6f in its own %s"
                                         % (which, gt, gpm, vr["id"], s, want_p, "enumeration" if which == "call-exact" else "retained trace"), step=0,
@@ -604,6 +636,8 @@ def shrink_candidates(cfg):
         mod(refmasked_rate=0.0)
     if cfg.get("zero_rate", 0) > 0:
         mod(zero_rate=0.0)
+    if cfg.get("tiny_rate", 0) > 0:
+        mod(tiny_rate=0.0)
     if cfg.get("max_alts", 1) > 1:
         mod(max_alts=cfg["max_alts"] - 1)
     if cfg.get("report_gp"):
